@@ -19,9 +19,9 @@ Fixpoint ci_eqb (a b : bytes) : bool :=
 
 (* ---------- strListGetItem ---------- *)
 Definition is_xspace (c : N) : bool := (c =? 32) || ((9 <=? c) && (c <=? 13)).
-(* delim[2] = " ?,\t\r\n" with ? = del *)
+(* delim[2] = " ?,\t\r\n\v\f" with ? = del (VT and FF since the strListGetItem repair) *)
 Definition is_delim2 (del c : N) : bool :=
-  (c =? 32) || (c =? del) || (c =? 44) || (c =? 9) || (c =? 13) || (c =? 10).
+  (c =? 32) || (c =? del) || (c =? 44) || (c =? 9) || (c =? 13) || (c =? 10) || (c =? 11) || (c =? 12).
 
 Fixpoint drop_while (p : N -> bool) (l : bytes) : bytes :=
   match l with [] => [] | c :: r => if p c then drop_while p r else l end.
